@@ -62,7 +62,9 @@ PURE_TRAITS = {'dasp_frame::Frame', 'dasp_sample::Sample', 'dasp_sample::SignedS
 class Policy:
     """What to inline, what to keep as an opaque effect, what is pure."""
 
-    def __init__(self, stop=(), pure_extra=(), inline=True, max_depth=6, no_inline_prefixes=(), stop_trait_methods=(), inline_core=False, subst_types=False, pure_ref_values=False):
+    def __init__(self, stop=(), pure_extra=(), inline=True, max_depth=6, no_inline_prefixes=(), stop_trait_methods=(), inline_core=False, subst_types=False, pure_ref_values=False, typed_floats=False, record_ref_values=False):
+        self.typed_floats = typed_floats      # float comparisons / arithmetic get distinct operator names (`Lt.f`): NaN breaks the integer laws
+        self.record_ref_values = record_ref_values  # an opaque call given `&x` sees the value of x at the call: record it with the event
         self.pure_ref_values = pure_ref_values  # a pure call given `&x` is a function of the value of x at the call, not of where x lives
         self.subst_types = subst_types        # carry the type arguments of inlined generic callees into the terms
         self.inline_core = inline_core        # see through the small core combinators whose MIR the extractor exported
@@ -422,7 +424,17 @@ class Engine:
         if k == 'rawptr':
             return ('ref', self.resolve(st, frame, rv[2]))
         if k == 'bin':
-            return self.binop(rv[1], self.operand(st, frame, rv[2]), self.operand(st, frame, rv[3]))
+            op = rv[1]
+            if self.policy.typed_floats:
+                tys = set()
+                for o in (rv[2], rv[3]):
+                    if o[0] == 'c':
+                        tys.add(o[1].get('ty'))
+                    elif o[0] in ('cp', 'mv') and not o[1][1]:
+                        tys.add(body['locals'][o[1][0]])
+                if tys & {'f32', 'f64'}:
+                    op = op + '.f'
+            return self.binop(op, self.operand(st, frame, rv[2]), self.operand(st, frame, rv[3]))
         if k == 'un':
             return self.unop(rv[1], self.operand(st, frame, rv[2]))
         if k == 'cast':
@@ -490,13 +502,18 @@ class Engine:
         return len(a['variants']) if a and t.get('is_enum') else None
 
     # ------------------------------------------------------------ execution
-    def summarize(self, body, args=None, store=None, frame=0):
+    def summarize(self, body, args=None, store=None, frame=0, events=None, tys=None):
         """returns a list of path summaries (dicts); `store` pre-populates the state (closure bodies evaluated
-        in the context of the path that created the closure)"""
+        in the context of the path that created the closure); `events` pre-populates the trace so that event
+        indices captured from that path keep their meaning; `tys` gives the type arguments of `body`"""
         self.npaths = 0
         st = State()
         if store:
             st.store = dict(store)
+        if events:
+            st.events = list(events)
+        if tys:
+            st.tys[frame] = dict(tys)
         st.nframes = frame + 1
         n = body['argc']
         args = args or [('param', i + 1) for i in range(n)]
@@ -744,6 +761,8 @@ class Engine:
         pure = self.policy.is_pure(callee)
         ev = {'kind': 'call', 'path': callee['path'], 'rpath': rpath, 'callee': callee, 'args': args, 'line': t.get('l'),
               'fn': body['path'], 'pure': pure, 'trait': callee.get('trait'), 'name': callee['name']}
+        if self.policy.record_ref_values and not pure:
+            ev['refvals'] = {i: self.read(st, a[1]) for i, a in enumerate(args) if a[0] == 'ref'}
         st.events.append(ev)
         k = len(st.events) - 1
         if pure:
